@@ -54,7 +54,7 @@ type c20Case struct {
 }
 
 func C20(c *core.Ctx) {
-	c.Rule = "scripted wrapped getters (fail k times then succeed, or forever; each attempt takes a fixed time) under a grid of Timeout / MaxRetryDelay settings including zero, run on the real clock with small durations (and one uncapped 4 s / 8 s run in the thorough tier; runs of 70 to 150 consecutive failures under a 2-3 ms cap); observed: response, number of calls, gaps between calls, elapsed time, with tolerances of 60 ms (an outcome that rests on an upper time bound is re-measured alone up to three times and reported only if it persists); the model's outcome and call count are compared where the timing margins are wide (>= 40 ms). non-trivial = at least one failed attempt (a wait or a timeout decision is exercised); distinct = distinct settings"
+	c.Rule = "scripted wrapped getters (fail k times then succeed, or forever; each attempt takes a fixed time) under a grid of Timeout / MaxRetryDelay settings including zero, run on the real clock with small durations (one run with a 2.5 s cap, above the initial delay; and one uncapped 4 s / 8 s run in the thorough tier; runs of 70 to 150 consecutive failures under a 2-3 ms cap); observed: response, number of calls, gaps between calls, elapsed time, with tolerances of 60 ms (an outcome that rests on an upper time bound is re-measured alone up to three times and reported only if it persists); the model's outcome and call count are compared where the timing margins are wide (>= 40 ms). non-trivial = at least one failed attempt (a wait or a timeout decision is exercised); distinct = distinct settings"
 	tol := 60 * time.Millisecond
 	ms := time.Millisecond
 	cases := []c20Case{
@@ -79,6 +79,7 @@ func C20(c *core.Ctx) {
 		{"max retry delay 0, k=3", 500 * ms, 0, 3, 1 * ms, 4, false},
 		{"many failures: cap 2ms, timeout 400ms, forever failing (over 100 waits)", 400 * ms, 2 * ms, -1, 0, 0, false},
 		{"many failures: cap 3ms, success at attempt 70", 2000 * ms, 3 * ms, 69, 0, 0, false},
+		{"cap 2.5s (above the initial delay, not a multiple of it): two failures then success", 12 * time.Second, 2500 * ms, 2, 2 * ms, 3, false},
 		{"uncapped growth: waits 4s then cut at 9s", 9 * time.Second, 30 * time.Second, -1, 2 * ms, 2, true},
 		{"uncapped growth: success after the 4s wait", 9 * time.Second, 30 * time.Second, 1, 2 * ms, 2, true},
 	}
